@@ -5,7 +5,7 @@ import c01, vf, w32, gen_rs2v
 class Property(c01.Property):
     prop = "C11"
     comp = "c11"
-    coq_targets = ["theories/Properties/C11.vo"]
+    coq_targets = ["theories/Properties/C11.vo", "theories/Read/LoopsEq.vo"]   # the reader model is tied to the regenerated loops by Read/LoopsEq.v
     theorems = []
     assumptions = [
         "on the 64-bit host the inline limit is 2^46-1, so the sentinel branch (inline == limit -> ask the length query) of Value::as_string/array_len/obj_len is exercised by the model at W=32 (theorems C11_api_len, C11_inline) and against the REAL crates built for a 32-bit target under Miri/i686 on every run (lib/w32.py: 15 documents with sizes 2^14-2 .. 2^14+1 through every access path, compared with an independent eager decode and, where the list-based model is fast enough, with the model at W=32)",
